@@ -478,6 +478,57 @@ def deser (tbl : Table) : Nat → Bytes → Option Nat → Res
 /-- the vector loop as coded BEFORE the repair (no guard): iterations = declared length -/
 def vecItersUnfixed (declared : Nat) : Nat := declared
 
+/-! ### table side conditions and constants of the total-work theorem (`c19_tl_total`) -/
+
+def Res.steps : Res → Nat
+  | .ok _ s => s
+  | .raised s _ => s
+  | .oof => 0
+
+/-- the schema a field type refers to WITHOUT a constructor id on the wire (bare sub-object / bare vector element):
+the only recursive calls of `deserialize` that need not consume input -/
+def bareRef : Ty → Option Nat
+  | .vec (some t) => some t
+  | .sub (some t) => some t
+  | _ => none
+
+/-- `bareOK tbl k s`: following bare references from schema `s` ends within `k` levels (k = 0: never) -/
+def bareOK (tbl : Table) : Nat → Nat → Bool
+  | 0, _ => false
+  | k+1, s => (fieldsOf tbl s).all (fun fld => match bareRef fld.ty with | none => true | some t => bareOK tbl k t)
+
+/-- side condition: the bare-reference graph of the table is acyclic with chains of at most `R` references
+(decidable: checked schema by schema).  A table with a bare cycle (`a x:a = A;`) makes `deserialize` recurse without
+consuming input until Python's RecursionError. -/
+def NoBareCycle (tbl : Table) (R : Nat) : Prop :=
+  tbl.all (fun sc => sc.fields.all (fun fld => match bareRef fld.ty with | none => true | some t => bareOK tbl R t)) = true
+
+instance (tbl : Table) (R : Nat) : Decidable (NoBareCycle tbl R) := by unfold NoBareCycle; infer_instance
+
+/-- side condition: constructor ids have (at least) 4 bytes, so a boxed object that is recognised consumed 4 bytes -/
+def Ids4 (tbl : Table) : Prop := ∀ s ∈ tbl, 4 ≤ s.id.length
+
+instance (tbl : Table) : Decidable (Ids4 tbl) := List.decidableBAll _ _
+
+/-- largest number of fields of a schema -/
+def maxFields (tbl : Table) : Nat := (tbl.map (fun s => s.fields.length)).foldr max 0
+
+/-- steps of a bare object with `M` fields per schema and `k` levels of bare nesting that consumes no input -/
+def tlA (M : Nat) : Nat → Nat
+  | 0 => 1
+  | k+1 => 1 + M * (1 + tlA M k)
+
+/-- the table constant of `c19_tl_total`: steps ≤ `tlK tbl R · (len + 1)²` -/
+def tlK (tbl : Table) (R : Nat) : Nat := 1 + tlA (maxFields tbl) (R + 2)
+
+/-- recursion-depth fuel that `c19_tl_total` shows sufficient: each boxed level consumes ≥ 4 bytes, between two boxed
+levels there are at most `R + 1` bare levels -/
+def tlFuel (R len : Nat) : Nat := (len / 4 + 1) * (R + 2)
+
+/-- smallest `R ≤ bound` with `NoBareCycle tbl R` (driver: reports the side condition of the table it was given) -/
+def bareDepth? (tbl : Table) (bound : Nat) : Option Nat :=
+  (List.range (bound + 1)).find? (fun R => decide (NoBareCycle tbl R))
+
 end Tl
 
 end TonVerif.Model.Cost
